@@ -44,6 +44,8 @@ func c14Op(x *mcx.Exec, label string, forceFactors bool) J {
 	return op
 }
 
+var c14PathSpellings = []string{"/b/{id}", "/a/", "/b/./{id}", "//b", "/a/../b", "/A", "/b/{id}/", "/a b/{x}", "/~a/{b}"}
+
 func c14Gen(x *mcx.Exec) J {
 	doc := J{"swagger": "2.0", "info": J{"title": "t", "version": "1"}}
 	if v := c14Media[x.Choose(mcx.INPUT, len(c14Media), "doc.consumes")]; v != nil {
@@ -69,7 +71,10 @@ func c14Gen(x *mcx.Exec) J {
 	paths := J{"/a": pa}
 	if k := x.Choose(mcx.INPUT, 8, "method on /b/{id}"); k > 0 {
 		m := methods7[k-1]
-		paths["/b/{id}"] = J{m: c14Op(x, m+" /b/{id}", false)}
+		// the second path is spelled in one of several ways: paths are matched exactly as written in the document,
+		// so a spelling that some normalisation would alter (trailing slash, dot segments, doubled slash, letter case) is a different path
+		sp := c14PathSpellings[x.Choose(mcx.INPUT, len(c14PathSpellings), "spelling of the second path")]
+		paths[sp] = J{m: c14Op(x, m+" /b/{id}", false)}
 	}
 	if x.Choose(mcx.INPUT, 2, "no paths") == 1 {
 		return doc
@@ -246,7 +251,9 @@ func c14Check(docJSON string, pol mcrt.Policy) (sig, what string, nontrivial boo
 			fail("OperationMethodPaths wrong", fmt.Sprintf("got %v want %v", sortedCopy(g), sortedCopy(expMP)))
 		}
 		// lookups by method and path, every method spelling x every path incl. unknown ones
-		for _, p := range []string{"/a", "/b/{id}", "/nope"} {
+		// probes: every path of the document exactly as spelled there, plus paths that no normalisation maps to one of them
+		probes := append([]string{"/nope", "/nope/{id}", ""}, h.SortedKeys(paths)...)
+		for _, p := range probes {
 			for _, m := range methods7 {
 				var exp map[string]any
 				for _, e := range ops {
